@@ -116,6 +116,16 @@ func (g *Gen) text(kind string) string {
 		}
 		return s
 	}
+	if g.Text != "plain" && g.R.Chance(1, 6) {
+		// nothing but 3- and 4-byte characters: wherever a read or a write is
+		// cut inside this text, it is cut inside a character
+		dense := []string{"日本語", "🚀", "𝔘𝔫𝔦", "한국어", "éå", "✓→", "中文字符"}
+		var sb strings.Builder
+		for k := 5 + g.R.Intn(60); k > 0; k-- {
+			sb.WriteString(dense[g.R.Intn(len(dense))])
+		}
+		return fmt.Sprintf("%s%d", sb.String(), g.R.Intn(100000))
+	}
 	n := 1 + g.R.Intn(3)
 	var parts []string
 	for i := 0; i < n; i++ {
@@ -131,10 +141,16 @@ func (g *Gen) text(kind string) string {
 	if kind == "body" && g.R.Chance(1, 3) {
 		s += "\n\n- item one\n- item two\n"
 	}
-	if g.Text == "huge" && kind == "body" && g.R.Chance(1, 60) {
-		// beyond what one event line can hold: to be refused, or stored and
-		// readable - never stored and unreadable
-		return "oversized " + strings.Repeat("x", 10*1024*1024+g.R.Intn(4096))
+	if g.Text == "huge" && kind == "body" && g.R.Chance(1, 40) {
+		// at or beyond what one event line can hold (10 MiB including the JSON
+		// around the text): to be refused, or stored and readable - also after
+		// compaction has folded it into another event - never stored and unreadable
+		n := 10*1024*1024 + g.R.Intn(4096)
+		if g.R.Chance(1, 2) {
+			n = 10*1024*1024 - 700 + g.R.Intn(800) // the last few hundred bytes under the limit
+		}
+		g.queue = append(g.queue, Step{Cmd: &Cmd{Op: "compact"}}, Step{Cmd: &Cmd{Op: "list", LAll: true}})
+		return "oversized " + strings.Repeat("x", n)
 	}
 	if g.Text == "huge" && kind == "body" && g.R.Chance(1, 4) {
 		n := 200 + g.R.Intn(3000)
@@ -186,7 +202,13 @@ func anyItem(*MItem) bool   { return true }
 // ref draws a reference; bad=true aims at unknown/pruned/wrong-kind ids.
 func (g *Gen) ref(m *Model, pred func(*MItem) bool, bad bool) string {
 	if bad {
-		switch g.R.Intn(3) {
+		switch g.R.Intn(4) {
+		case 3:
+			// a live id of the right kind with surrounding whitespace: names
+			// nothing (ids are compared exactly)
+			if r, ok := g.liveOf(m, pred); ok {
+				return g.oneOf(" ", "") + m.Resolve(r) + g.oneOf(" ", "\n", "\t")
+			}
 		case 0:
 			if r, ok := g.prunedRef(m); ok {
 				return r
